@@ -207,3 +207,10 @@ def with_stats(rng, frames, **over):
     p = general(rng, frames, npeers=over.pop("npeers", 2), spectators=rng.choice([0, 1]), **over)
     p["p_stats"] = rng.choice([0.05, 0.2])
     return p
+
+
+def wide(rng, frames, **over):
+    """The general space with four-byte inputs (cfg.wide): the endpoints join / split several bytes per player."""
+    p = general(rng, frames, **over)
+    p["cfg"]["wide"] = True
+    return p
